@@ -171,6 +171,11 @@ def feederSrc (files : Files) : Src Feeder :=
     least one input bit, and the input is at most all the files there are (+ the faked bytes) -/
 def decFuel (files : Files) : Nat := 16 * (files.foldl (fun a f => a + f.2.length) 0) + 100000
 
+/-- … and a folder chain may enter the same cabinet file once per part (a set built by appending one file to
+    itself many times does): the parts still to be read count once each -/
+def chainFuel (files : Files) (fd : Feeder) : Nat :=
+  decFuel files + 16 * (fd.parts.foldl (fun a p => a + ((files.lookup p.fname).map (·.length)).getD 0) 0)
+
 def decompress (files : Files) (dec : Dec) (fd : Feeder) (bytes : Nat) : Except Fault (Option DecOut) :=
   match dec with
   | .none bs e =>
@@ -178,15 +183,15 @@ def decompress (files : Files) (dec : Dec) (fd : Feeder) (bytes : Nat) : Except 
     else (nonedDecompress files bs (bytes / (max bs 1) + 2) fd bytes []).map some
   | .mszip st =>
     -- the decoder state carries the feeder (its `input` handle is the CAB instance)
-    match Zip.decompress (feederSrc files) (decFuel files) { st with src := fd } bytes with
+    match Zip.decompress (feederSrc files) (chainFuel files fd) { st with src := fd } bytes with
     | .error f => .error f
     | .ok o => .ok (some ⟨o.err, o.written, .mszip o.st, o.st.src⟩)
   | .qtm st =>
-    match Qtm.decompress (feederSrc files) (decFuel files) { st with src := fd } bytes with
+    match Qtm.decompress (feederSrc files) (chainFuel files fd) { st with src := fd } bytes with
     | .error f => .error f
     | .ok o => .ok (some ⟨o.err, o.written, .qtm o.st, o.st.src⟩)
   | .lzx st =>
-    match Lzx.decompress (feederSrc files) (decFuel files) { st with src := fd } bytes with
+    match Lzx.decompress (feederSrc files) (chainFuel files fd) { st with src := fd } bytes with
     | .error f => .error f
     | .ok o => .ok (some ⟨o.err, o.written, .lzx o.st, o.st.src⟩)
   | .unsupported _ => .ok none
